@@ -242,7 +242,10 @@ func execExp(f []string) vlib.Res {
 		req.SetEdns0(1232, true)
 		pv, cv := "miss", "miss"
 		or := "ok"
+		// least deadline any RRSIG of the last judged message allows (exp time), and which component
+		minBound, minWhy := int64(1)<<60, ""
 		judge := func(what string, m *dns.Msg) {
+			minBound, minWhy = int64(1)<<60, ""
 			for _, rr := range m.Ns {
 				sig, ok := rr.(*dns.RRSIG)
 				if !ok {
@@ -291,6 +294,9 @@ func execExp(f []string) vlib.Res {
 						}
 					}
 				}
+				if bound < minBound {
+					minBound, minWhy = bound, why
+				}
 				if expNow >= bound {
 					or = fmt.Sprintf("FAIL sig=exp/%s/served-past-%s now=%d bound=%d owner=%s", what, why, expNow, bound, sig.Hdr.Name)
 					return
@@ -337,7 +343,42 @@ func execExp(f []string) vlib.Res {
 		if pv != "miss" || cv != "miss" {
 			tags = "nt,synth"
 		}
-		return vlib.Res{Impl: "proof=" + pv + " cut=" + cv + " cutw=" + cw, Oracle: or, Tags: tags}
+		// the resolver-private route (Store.GetWithContext answers the resolver's own DS / DNSKEY
+		// sub-queries): what the resolver derives from a synthesised denial may live only as long
+		// as the records that prove it, so the lookup must bind the request tree to their deadline
+		// the deadline lookupDenialProofWithExpiry attaches to a synthesised answer (seconds from now;
+		// the proof clock is frozen, so whole seconds), compared with the model's lookupProofExpiry
+		pb := "-"
+		if e, ok := cache.VerifC02LookupProofExpiry(expCache, req); ok {
+			pb = itoa(int(e.Sub(expBase) / time.Second))
+		}
+		if pm, ok, exact, bound := cache.VerifC02PrivateGet(expCache, req); ok && pm != nil && !exact &&
+			(pm.Rcode == dns.RcodeNameError || (pm.Rcode == dns.RcodeSuccess && len(pm.Answer) == 0)) {
+			tags += ",private-synth"
+			if e, ok := cache.VerifC02LookupProofExpiry(expCache, req); ok && cv == "miss" && or == "ok" && !bound.IsZero() && !bound.Equal(e) {
+				or = fmt.Sprintf("FAIL sig=exp/private/request-tree-bound-differs-from-proof-deadline bound=%d proof=%d",
+					int(bound.Sub(expBase)/time.Second), int(e.Sub(expBase)/time.Second))
+			}
+			if or == "ok" {
+				judge("private", pm)
+			}
+			if or == "ok" {
+				left := int64(bound.Sub(expBase) / time.Second) // whole seconds: the cut cache reads the wall clock, a fraction after expBase
+				switch {
+				case bound.IsZero():
+					or = "FAIL sig=exp/private/synthesised-denial-leaves-request-tree-unbounded"
+				case cv == "hit" && minWhy != "" && expNow+left > minBound+int64(time.Since(expBase)/time.Second)+1:
+					// the subtree-cut cache reads the wall clock: its deadlines lie the really elapsed time
+					// (fractions of a second, more on a loaded machine) after the virtual ones
+					or = fmt.Sprintf("FAIL sig=exp/private/request-tree-bound-exceeds-%s bound=%d allowed=%d", minWhy, expNow+left, minBound)
+				case cv != "hit" && minWhy != "" && expNow+left > minBound:
+					or = fmt.Sprintf("FAIL sig=exp/private/request-tree-bound-exceeds-%s bound=%d allowed=%d", minWhy, expNow+left, minBound)
+				}
+			}
+		} else if ok && pm != nil && exact {
+			tags += ",private-exact"
+		}
+		return vlib.Res{Impl: "proof=" + pv + " cut=" + cv + " cutw=" + cw + " pb=" + pb, Oracle: or, Tags: tags}
 	}
 	return vlib.Res{Impl: "bad-op"}
 }
